@@ -280,6 +280,22 @@ def c20_catalogue(quick):
     ua = {'a.test': {'kind': 'rules', 'disallow': [], 'agent': 'otherbot',
                      'extra': 'Disallow: /\n\nUser-agent: *\nDisallow: /priv/\n'}}
     out.append(scenario('robots-agent-groups', [U(1, links=[2, 3]), U(2, disallowed=1), U(3)], dict(robots=1), N=1, robots=ua))
+    # our own group, spelt with capitals, forbids what the catch-all group allows (agent names compare case-insensitively)
+    own = {'a.test': {'kind': 'rules', 'agent': 'Wpull', 'extra': '\nUser-agent: *\nDisallow: /none/\n'}}
+    out.append(scenario('robots-own-group-capitalised', [U(1, links=[2, 3]), U(2, disallowed=1), U(3)], dict(robots=1), N=1, robots=own))
+    own2 = {'a.test': {'kind': 'rules', 'agent': 'WPULL', 'disallow': [], 'extra': 'Disallow: /priv/\n\nUser-agent: *\nDisallow:\n'}}
+    out.append(scenario('robots-own-group-uppercase', [U(1, links=[2, 3]), U(2, disallowed=1), U(3)], dict(robots=1), N=1, robots=own2))
+    # rules that mention the query string
+    q = [U(1, links=[2, 3, 4, 5]), U(2, path='/search?q=1', disallowed=1), U(3, path='/search'), U(4, path='/page?action=edit', disallowed=1),
+         U(5, path='/page?action=view')]
+    qr = {'a.test': {'kind': 'rules', 'disallow': ['/search?', '/*?action=edit']}}
+    out.append(scenario('robots-query-rules', q, dict(robots=1), N=1, robots=qr))
+    # robots.txt reached through a redirect whose body is longer than the file; the file has no final newline
+    rd = {'a.test': {'kind': 'rules', 'via_redirect': {'path': '/real-robots.txt', 'body_len': 700}, 'no_newline': 1}}
+    out.append(scenario('robots-via-redirect-long-body', [U(1, links=[2, 3]), U(2, disallowed=1), U(3)], dict(robots=1), N=1, robots=rd))
+    rd2 = {'a.test': {'kind': 'rules', 'via_redirect': {'path': '/real-robots.txt', 'body_len': 5000, 'tail': '\nDisallow: /\n'}, 'disallow': [],
+                      'extra': 'Allow: /p3\nDisallow: /priv/'}}
+    out.append(scenario('robots-via-redirect-huge-body', [U(1, links=[2, 3]), U(2, disallowed=1), U(3)], dict(robots=1), N=1, robots=rd2))
     return out
 
 
